@@ -192,6 +192,9 @@ type Cond struct {
 func NewCond(l Locker) *Cond { return &Cond{L: l} }
 
 func (c *Cond) Wait() {
+	// a scheduling point before the waiter is enqueued: the window between the caller's condition check and its
+	// registration as a waiter exists in real Go as well
+	simrt.Point()
 	t := simrt.Current()
 	if t == nil {
 		if simrt.Dead() {
